@@ -57,6 +57,7 @@ func (q *QueryStats) add(o *QueryStats) {
 type Solver struct {
 	kind      SolverKind
 	timeoutMs int
+	softTimeoutMs int // if > 0: limit for the next queries (z3 only)
 	cmd       *exec.Cmd
 	in        io.WriteCloser
 	out       *bufio.Reader
@@ -291,7 +292,12 @@ func (s *Solver) CheckEval(ctx *Ctx, asserts []*Term, wantModel bool, evals []*T
 		fmt.Fprintf(&s.pending, "(push 1)\n(assert %s)\n", ref(a))
 		s.stack = append(s.stack, a)
 	}
-	s.pending.WriteString("(check-sat)\n")
+	if s.softTimeoutMs > 0 && s.kind != SolverCVC5 {
+		// a shorter limit for this query only (feasibility checks over floating point: unknown means "keep the branch")
+		fmt.Fprintf(&s.pending, "(set-option :timeout %d)\n(check-sat)\n(set-option :timeout %d)\n", s.softTimeoutMs, s.timeoutMs)
+	} else {
+		s.pending.WriteString("(check-sat)\n")
+	}
 	plen := s.pending.Len()
 	tq := time.Now()
 	io.WriteString(s.in, s.pending.String())
